@@ -75,6 +75,35 @@ theorem C06_compromised_never_reused (e : Env) (s : Slots) (k : KeyId) (hk : s.k
     exact this
   · unfold replaceCompromised; rw [obtain_eq _ _ hq, hkey]; simpa using hf
 
+/-- … with several issuers: after the quarantine no issuer's bundle loads with the compromised
+key, so whatever is adopted or loaded as the replacement (`C06_newest_issuer`: one of the
+loadable bundles) does not use it -/
+theorem C06_compromised_never_loaded (k : KeyId) (l : List Slots) :
+    ∀ s ∈ quarantineAll k l, ∀ k' c, load s = .ok k' c → k' ≠ k := by
+  intro s hs k' c hl
+  unfold quarantineAll at hs
+  obtain ⟨t, _, rfl⟩ := List.mem_map.mp hs
+  by_cases hk : t.key = some k
+  · simp [hk, load] at hl
+  · simp only [hk, if_false] at hl
+    intro he; subst he
+    unfold load at hl
+    cases htk : t.key with
+    | none => simp [htk] at hl
+    | some k0 =>
+      simp only [htk] at hl
+      cases htc : t.crt with
+      | none => simp [htc] at hl
+      | some c0 =>
+        simp only [htc] at hl
+        cases htm : t.mta with
+        | none => simp [htm] at hl
+        | some m =>
+          simp only [htm] at hl
+          split at hl
+          · simp at hl; exact hk (by rw [htk, hl.1])
+          · cases hl
+
 /-- **Newest issuer**: with several issuers the bundle loaded is a loadable one with the
 latest NotBefore among all loadable ones -/
 theorem C06_newest_issuer (l : List Slots) (c : Crt) (h : newest l = some c) :
@@ -155,6 +184,9 @@ example : load (obtain { reuse := true, fresh := 4, ser := 2, now := 9 }
     { key := some 3, crt := none, mta := none, compromised := none }) = .ok 3 { pub := 3, ser := 2, nb := 9 } := by decide
 example : (replaceCompromised { reuse := true, fresh := 4, ser := 2, now := 9 }
     { key := some 3, crt := some { pub := 3, ser := 1, nb := 1 }, mta := some 1, compromised := none }).key = some 4 := by decide
+example : (quarantineAll 3 [ { key := some 3, crt := some { pub := 3, ser := 2, nb := 8 }, mta := some 2, compromised := none },
+                             { key := some 3, crt := some { pub := 3, ser := 1, nb := 5 }, mta := some 1, compromised := none } ]).map load
+    = [.notexist, .notexist] := by decide
 example : newest [ { key := some 1, crt := some { pub := 1, ser := 1, nb := 5 }, mta := some 1, compromised := none },
                    { key := some 2, crt := some { pub := 2, ser := 2, nb := 8 }, mta := some 2, compromised := none } ]
     = some { pub := 2, ser := 2, nb := 8 } := by decide
